@@ -81,6 +81,7 @@ struct MemFile {
   size_t nreads = 0;
   size_t total_written = 0, oversize_writes = 0;
   bool allow_huge = false;
+  size_t nwrites = 0, fail_write_call = 0; // k = the k-th write call and all later ones fail with ENOSPC
   size_t fail_read_call = 0; // 0 = never; k = the k-th read call and all later ones fail with EIO
   static ssize_t rd(void *c, char *buf, size_t n) {
     MemFile *m = (MemFile *)c;
@@ -98,6 +99,11 @@ struct MemFile {
   static ssize_t wr(void *c, const char *buf, size_t n) {
     MemFile *m = (MemFile *)c;
     if (n == 0) return 0;
+    m->nwrites++;
+    if (m->fail_write_call && m->nwrites >= m->fail_write_call) { // injected persistent write error (disk full)
+      errno = ENOSPC;
+      return -1;
+    }
     m->total_written += n;
     if (n > ((size_t)1 << 28) && !m->allow_huge) {
       // an absurd write (e.g. a length that wrapped around): log it, keep a small prefix, do not try to store it
